@@ -19,9 +19,14 @@ const (
 	Plain          Flavour = iota // gap tolerant (BoltDB / InmemStore semantics)
 	Monotonic                     // IsMonotonic()==true: contiguous appends, prefix/suffix deletes only (raft-wal semantics)
 	CommitTracking                // plain + CommitTrackingLogStore (staged commit index persisted with the next StoreLogs)
+	// CommitTrackingEager: as the in-repo InmemCommitTrackingStore behaves - a
+	// staged commit index is visible (and survives a restart) at once
+	CommitTrackingEager
 )
 
-func (f Flavour) String() string { return [...]string{"plain", "monotonic", "committracking"}[f] }
+func (f Flavour) String() string {
+	return [...]string{"plain", "monotonic", "committracking", "committracking-eager"}[f]
+}
 
 type Snap struct {
 	Meta raft.SnapshotMeta
@@ -187,6 +192,7 @@ const (
 	OpSetUint64   OpKind = "SetUint64"
 	OpSnapClose   OpKind = "SnapClose"
 	OpSnapCreate  OpKind = "SnapCreate"
+	OpStage       OpKind = "StageCommitIndex"
 )
 
 type Decision int
@@ -371,7 +377,7 @@ func (s *logStore) StoreLogs(logs []*raft.Log) error {
 		for _, l := range cp {
 			d.Logs[l.Index] = l
 		}
-		if d.Flavour == CommitTracking && len(cp) > 0 {
+		if (d.Flavour == CommitTracking || d.Flavour == CommitTrackingEager) && len(cp) > 0 {
 			d.Commit = d.Staged
 		}
 		return nil
@@ -402,6 +408,12 @@ func (s *monotonicLogStore) IsMonotonic() bool { return true }
 type commitTrackingLogStore struct{ logStore }
 
 func (s *commitTrackingLogStore) StageCommitIndex(idx uint64) error {
+	if s.in.Srv.Disk.Flavour == CommitTrackingEager {
+		return s.in.durable(&DiskOp{Kind: OpStage, Min: idx}, func(d *Disk) error {
+			d.Staged, d.Commit = idx, idx
+			return nil
+		})
+	}
 	s.in.W.Mu.Lock()
 	defer s.in.W.Mu.Unlock()
 	s.in.disk.Staged = idx
